@@ -156,6 +156,7 @@ def cases(tier, seed):
     for chunk in range(0, len(idx), 40):
         out.append({"part": "client", "refusals": idx[chunk:chunk + 40]})
     out.append({"part": "codes"})
+    out.append({"part": "dict-edit"})
     return out
 
 
@@ -443,7 +444,67 @@ def run_codes(case, st):
     st.sample({"abort codes decoded": len(codes)})
 
 
+def run_dict_edit(case, st):
+    """The application edits the dictionary it gave to the node (removes an entry or a member, redefines an index as
+    read-only / as another type) AFTER the entry has been served once: refusals follow the dictionary as it is now."""
+    from canopen.objectdictionary import ODVariable, datatypes as dt
+    edits = [
+        ("delete-index", (0x2400, 0), lambda od: od.__delitem__(0x2400), {cia301.ABORT_NO_OBJECT}, {cia301.ABORT_NO_OBJECT}),
+        ("delete-member", (0x3000, 9), lambda od: od[0x3000].__delitem__(9), {cia301.ABORT_NO_SUB}, {cia301.ABORT_NO_SUB}),
+        ("redefine-read-only", (0x2400, 0), None, None, {cia301.ABORT_RO}),
+        ("redefine-other-type", (0x2400, 0), None, None, {cia301.ABORT_LEN, cia301.ABORT_LEN_HIGH, cia301.ABORT_LEN_LOW}),
+    ]
+    for name, key, fn, read_codes, write_codes in edits:
+        for first in ("upload", "download", "both"):
+            sim = ServerSim(ENTRIES)
+            st.evaluations += 1
+            st.nontrivial_n += 1
+            rc = dict(case, edit=name, first=first)
+            mux = struct.pack("<HB", *key)
+            # the entry is served once before the edit
+            if first in ("upload", "both"):
+                sim.send(bytes([0x40]) + mux + bytes(4))
+            if first in ("download", "both"):
+                sim.send(bytes([0x2B]) + mux + b"\x34\x12\0\0")
+            od = sim.node.object_dictionary
+            if name == "redefine-read-only":
+                v = ODVariable("p_small", 0x2400)
+                v.data_type, v.access_type, v.default = dt.UNSIGNED16, "ro", 7
+                del od[0x2400]
+                od.add_object(v)
+            elif name == "redefine-other-type":
+                v = ODVariable("p_small", 0x2400)
+                v.data_type, v.access_type, v.default = dt.UNSIGNED32, "rw", 7
+                del od[0x2400]
+                od.add_object(v)
+            else:
+                fn(od)
+            store_before = sim.real_store()
+            cb_before = list(sim.cb_log)
+            checks = []
+            if read_codes:
+                checks.append(("read", bytes([0x40]) + mux + bytes(4), read_codes))
+            checks.append(("write", bytes([0x2B]) + mux + b"\x78\x56\0\0", write_codes))
+            for what, fr, codes in checks:
+                rs = sim.send(fr)
+                st.transitions += 1
+                if sim.exc is not None:
+                    st.violation(f"C06:dict-edit:{name}:{what}:exception", rc, "an abort frame", repr(sim.exc)[:120])
+                    continue
+                if len(rs) != 1 or rs[0][0] != 0x80:
+                    st.violation(f"C06:dict-edit:{name}:{what}:not-aborted", rc, [f"0x{c:08X}" for c in sorted(codes)], [r.hex() for r in rs])
+                    continue
+                code = struct.unpack_from("<L", rs[0], 4)[0]
+                if code not in codes:
+                    st.violation(f"C06:dict-edit:{name}:{what}:code", rc, [f"0x{c:08X}" for c in sorted(codes)], f"0x{code:08X}")
+            if sim.real_store() != store_before or sim.cb_log != cb_before:
+                st.violation(f"C06:dict-edit:{name}:store-or-callback-changed", rc, "nothing changed", repr(sim.cb_log[len(cb_before):])[:100])
+            st.outcome("dict-edit refused")
+
+
 def run_case(case, st):
+    if case["part"] == "dict-edit":
+        return run_dict_edit(case, st)
     {"server": run_server, "client": run_client, "codes": run_codes}[case["part"]](case, st)
 
 
